@@ -227,8 +227,13 @@ def dsl_subst(d, sigma):
         if fn in sigma and sigma[fn][0] == "v":
             fn = sigma[fn][1]
         return ["call", fn, [dsl_subst(x, sigma) for x in d[2]],
-                {n: dsl_subst(v, sigma) for n, v in (d[3] if len(d) > 3 else {}).items()}]
+                [[n, dsl_subst(v, sigma)] for n, v in _kwitems(d)]]
     return [k] + [dsl_subst(x, sigma) for x in d[1:]]
+
+
+def _kwitems(d):
+    kw = d[3] if len(d) > 3 else {}
+    return list(kw.items()) if isinstance(kw, dict) else [tuple(x) for x in kw]
 
 
 def shuffle_comm(d, rng):
@@ -236,8 +241,9 @@ def shuffle_comm(d, rng):
     if k in ("v", "c"):
         return d
     if k == "call":
-        return ["call", d[1], [shuffle_comm(x, rng) for x in d[2]],
-                {n: shuffle_comm(v, rng) for n, v in (d[3] if len(d) > 3 else {}).items()}]
+        kw = [[n, shuffle_comm(v, rng)] for n, v in _kwitems(d)]
+        rng.shuffle(kw)      # keyword order is not significant
+        return ["call", d[1], [shuffle_comm(x, rng) for x in d[2]], kw]
     kids = [shuffle_comm(x, rng) for x in d[1:]]
     if k in ("+", "*"):
         rng.shuffle(kids)
@@ -253,7 +259,7 @@ def drop_identity(d, sigma, free, rng):
         return d
     if k == "call":
         return ["call", d[1], [drop_identity(x, sigma, free, rng) for x in d[2]],
-                {n: drop_identity(v, sigma, free, rng) for n, v in (d[3] if len(d) > 3 else {}).items()}]
+                [[n, drop_identity(v, sigma, free, rng)] for n, v in _kwitems(d)]]
     if k in ("+", "*") and len(d) == 3 and rng.random() < 0.5:
         for i in (1, 2):
             c = d[i]
